@@ -297,6 +297,11 @@ func Calls(fn *ssa.Function) []ssa.CallInstruction {
 func Returns(fn *ssa.Function) []*ssa.Return {
 	var out []*ssa.Return
 	for _, b := range fn.Blocks {
+		if b == fn.Recover {
+			// only entered when a deferred call recovers from a panic: not a
+			// path of the function's own control flow
+			continue
+		}
 		for _, in := range b.Instrs {
 			if r, ok := in.(*ssa.Return); ok {
 				out = append(out, r)
